@@ -137,6 +137,15 @@ func init() {
 			panic(pathAbort{kind: abortAssertFail, msg: "vUnreachable: " + a[0].(string)})
 		},
 		"vSymbolic": func(fr *frame, a []value) value { return true },
+		"vTrackPossessive": func(fr *frame, a []value) value {
+			fr.i.ps.trackPoss = a[0].(bool)
+			return nil
+		},
+		"vPossessiveDiffered": func(fr *frame, a []value) value {
+			d := fr.i.ps.possDiff
+			fr.i.ps.inputs = append(fr.i.ps.inputs, inputRec{Kind: "bool", Tag: "possessive-differed", Terms: []*term{mkBool(d)}})
+			return d
+		},
 		"vFreeze": func(fr *frame, a []value) value {
 			fr.i.freezeReachable(a[0])
 			return nil
@@ -784,10 +793,19 @@ func (i *interpreter) reFind(v value, subject value) []int {
 	}
 	switch h := (*p).(hostHandle).p.(type) {
 	case *regexp.Regexp:
+		var r []int
 		if s, ok := subject.(string); ok {
-			return h.FindStringSubmatchIndex(s)
+			r = h.FindStringSubmatchIndex(s)
+		} else {
+			r = i.refreFind(h, strBytes(subject))
 		}
-		return i.refreFind(h, strBytes(subject))
+		if i.ps.trackPoss && !i.ps.possDiff {
+			pr := i.possessiveFindTree(parseTree(h.String()), nil, strBytes(subject))
+			if (r == nil) != (pr == nil) || (r != nil && (r[0] != pr[0] || r[1] != pr[1])) {
+				i.ps.possDiff = true
+			}
+		}
+		return r
 	case *symRegexp:
 		return i.refreFindTree(h.tree, h.holes, strBytes(subject))
 	}
